@@ -55,6 +55,10 @@ enum { QX=0, QY=1, QZ=2, QW=3 };
 #	define C16_XYZW_ONLY 0
 #endif
 
+// -DC16_LEAN: instantiate the highp qualifiers only (secondary configurations; halves/thirds the build time)
+#if !defined(C16_LEAN)
+#	define C16_LEAN 0
+#endif
 // qualifier index used in the input records: 0..2 packed highp/mediump/lowp, 3..5 aligned highp/mediump/lowp
 enum { NQ = C16_ALIGNED ? 6 : 3 };
 static const char* const QNAMES[6]={"packed_highp","packed_mediump","packed_lowp","aligned_highp","aligned_mediump","aligned_lowp"};
@@ -110,7 +114,12 @@ static C16_NOINL void gen_size(vf::Ctx& c,const Pre& P,bool aligned,size_t sz,si
 	if(!aligned){ if(sz!=n*st) F_num(c,P,s_eq,(long long)sz,(long long)(n*st)); if(aln!=at_) F_num(c,P,"alignof-not-alignof(T)",(long long)aln,(long long)at_); }
 	else { if(sz<n*st) F_num(c,P,s_lt,(long long)sz,(long long)(n*st)); if(!pow2(aln)||aln<at_) F_num(c,P,"alignof-not-power-of-two>=alignof(T)",(long long)aln,(long long)at_);
 	       if(sz%aln) F_num(c,P,"sizeof-not-multiple-of-alignof",(long long)sz,(long long)aln); } }
-static C16_NOINL void len_type(vf::Ctx& c,const Pre& P,bool ok){ if(!ok) F_txt(c,P,"length()-type-not-configured-length-type","other type",LENGTH_NAME); }
+template<class X> struct TName { static const char* n(){ return "another type"; } };
+template<> struct TName<int>{ static const char* n(){ return "int"; } };
+template<> struct TName<unsigned>{ static const char* n(){ return "unsigned int"; } };
+template<> struct TName<long>{ static const char* n(){ return "long"; } };
+template<> struct TName<unsigned long>{ static const char* n(){ return "size_t"; } };
+static C16_NOINL void len_type(vf::Ctx& c,const Pre& P,bool ok,const char* ret,const char* lt,const char* glt){ if(!ok) F_txt(c,P,"length()-type-not-configured-length-type",(std::string("length() returns ")+ret+", length_type="+lt+", glm::length_t="+glt).c_str(),LENGTH_NAME); }
 // first mismatch between what was read back and the tags
 template<class T> static C16_NOINL void cmp(vf::Ctx& c,const Pre& P,const char* what,const T* got,const T* want,int n){
 	for(int i=0;i<n;i++) if(!eq(got[i],want[i])){ c.fail(P(what),shw_arr(got,n),shw_arr(want,n)); return; } }
@@ -186,7 +195,7 @@ template<int L,class T,int QI> static void vec_facts(const u64* raw,vf::Ctx& c){
 		eqn(c,P,L==2? "float:alignof-not-8":"float:alignof-not-16",alignof(V),L==2? 8:16);
 	}
 	// ---- length()
-	len_type(c,P,std::is_same<decltype(V::length()),want_length_t>::value && std::is_same<LT,want_length_t>::value && std::is_same<glm::length_t,want_length_t>::value);
+	len_type(c,P,std::is_same<decltype(V::length()),want_length_t>::value && std::is_same<LT,want_length_t>::value && std::is_same<glm::length_t,want_length_t>::value,TName<decltype(V::length())>::n(),TName<LT>::n(),TName<glm::length_t>::n());
 	Box<V> box; box.poison(0x5A); V* v=hide(new (box.obj()) V); const V* cv=v;
 	eqn(c,P,"length()-not-component-count",(long long)hide(v)->length(),L);
 	// ---- addresses
@@ -259,7 +268,7 @@ template<int C,int R,class T,int QI> static void mat_facts(const u64* raw,vf::Ct
 	if(!AL) gen_size(c,P,false,sizeof(M),alignof(M),N,sizeof(T),alignof(T),"sizeof-not-C*R*sizeof(T)","");
 	else { eqn(c,P,"sizeof-not-C*sizeof(aligned-column)",sizeof(M),C*sizeof(Col)); if(!pow2(alignof(M)) || alignof(M)<alignof(Col)) F_num(c,P,"alignof-less-than-alignof(aligned-column)",alignof(M),alignof(Col)); }
 	const size_t S=colbytes/sizeof(T);
-	len_type(c,P,std::is_same<decltype(M::length()),want_length_t>::value && std::is_same<LT,want_length_t>::value);
+	len_type(c,P,std::is_same<decltype(M::length()),want_length_t>::value && std::is_same<LT,want_length_t>::value,TName<decltype(M::length())>::n(),TName<LT>::n(),TName<glm::length_t>::n());
 	Box<M> box; box.poison(0x5A); M* m=hide(new (box.obj()) M); const M* cm=m;
 	eqn(c,P,"length()-not-column-count",(long long)hide(m)->length(),C);
 	eqn(c,P,"column-length()-not-row-count",(long long)(*hide(m))[0].length(),R);
@@ -315,7 +324,7 @@ template<class T,int QI> static void qua_facts(const u64* raw,vf::Ctx& c){
 	typedef typename QT::length_type LT;
 	T tg[4][16]; tags<T>(tg,4,raw,4,1);
 	gen_size(c,P,AL,sizeof(QT),alignof(QT),4,sizeof(T),alignof(T),"sizeof-not-4*sizeof(T)","sizeof-less-than-4*sizeof(T)");
-	len_type(c,P,std::is_same<decltype(QT::length()),want_length_t>::value && std::is_same<LT,want_length_t>::value);
+	len_type(c,P,std::is_same<decltype(QT::length()),want_length_t>::value && std::is_same<LT,want_length_t>::value,TName<decltype(QT::length())>::n(),TName<LT>::n(),TName<glm::length_t>::n());
 	Box<QT> box; box.poison(0x5A); QT* q=hide(new (box.obj()) QT); const QT* cq=q;
 	eqn(c,P,"length()-not-4",(long long)hide(q)->length(),4);
 	// ---- member order
@@ -376,21 +385,39 @@ template<class T,int QI> static void mat_q(const InM& in,vf::Ctx& c){
 		case 42: mat_facts<4,2,T,QI>(in.raw,c); break; case 43: mat_facts<4,3,T,QI>(in.raw,c); break; case 44: mat_facts<4,4,T,QI>(in.raw,c); break;
 		default: c.cls("ignored:bad-selector"); } }
 template<class T> static void vec_d(const InV& in,vf::Ctx& c){
-	switch(in.qi){ case 0: vec_q<T,0>(in,c); break; case 1: vec_q<T,1>(in,c); break; case 2: vec_q<T,2>(in,c); break;
+	switch(in.qi){ case 0: vec_q<T,0>(in,c); break;
+#if !C16_LEAN
+		case 1: vec_q<T,1>(in,c); break; case 2: vec_q<T,2>(in,c); break;
+#endif
 #if C16_ALIGNED
-		case 3: vec_q<T,3>(in,c); break; case 4: vec_q<T,4>(in,c); break; case 5: vec_q<T,5>(in,c); break;
+		case 3: vec_q<T,3>(in,c); break;
+#if !C16_LEAN
+		case 4: vec_q<T,4>(in,c); break; case 5: vec_q<T,5>(in,c); break;
+#endif
 #endif
 		default: c.cls("ignored:qualifier-not-available-in-this-configuration"); } }
 template<class T> static void mat_d(const InM& in,vf::Ctx& c){
-	switch(in.qi){ case 0: mat_q<T,0>(in,c); break; case 1: mat_q<T,1>(in,c); break; case 2: mat_q<T,2>(in,c); break;
+	switch(in.qi){ case 0: mat_q<T,0>(in,c); break;
+#if !C16_LEAN
+		case 1: mat_q<T,1>(in,c); break; case 2: mat_q<T,2>(in,c); break;
+#endif
 #if C16_ALIGNED
-		case 3: mat_q<T,3>(in,c); break; case 4: mat_q<T,4>(in,c); break; case 5: mat_q<T,5>(in,c); break;
+		case 3: mat_q<T,3>(in,c); break;
+#if !C16_LEAN
+		case 4: mat_q<T,4>(in,c); break; case 5: mat_q<T,5>(in,c); break;
+#endif
 #endif
 		default: c.cls("ignored:qualifier-not-available-in-this-configuration"); } }
 template<class T> static void qua_d(const InQ& in,vf::Ctx& c){
-	switch(in.qi){ case 0: qua_facts<T,0>(in.raw,c); break; case 1: qua_facts<T,1>(in.raw,c); break; case 2: qua_facts<T,2>(in.raw,c); break;
+	switch(in.qi){ case 0: qua_facts<T,0>(in.raw,c); break;
+#if !C16_LEAN
+		case 1: qua_facts<T,1>(in.raw,c); break; case 2: qua_facts<T,2>(in.raw,c); break;
+#endif
 #if C16_ALIGNED
-		case 3: qua_facts<T,3>(in.raw,c); break; case 4: qua_facts<T,4>(in.raw,c); break; case 5: qua_facts<T,5>(in.raw,c); break;
+		case 3: qua_facts<T,3>(in.raw,c); break;
+#if !C16_LEAN
+		case 4: qua_facts<T,4>(in.raw,c); break; case 5: qua_facts<T,5>(in.raw,c); break;
+#endif
 #endif
 		default: c.cls("ignored:qualifier-not-available-in-this-configuration"); } }
 
@@ -520,7 +547,7 @@ static void workload(){
 	vf::parallel("C16_layout",[&](int t,int TT,vf::Ctx& c){
 		for(u64 k=t;k<n;k+=TT){
 			for(auto& o: ops){
-				for(int qi=0;qi<NQ;qi++){
+				for(int qi=0;qi<NQ;qi++){ if(C16_LEAN && qi%3) continue;
 					if(vf::want(*o.v)) for(int L=1;L<=4;L++){ InV in{}; in.L=(u8)L; in.qi=(u8)qi; in.pat=(u8)(k<5? k : c.rng.below(5)); fill_tags(c.rng,in.raw,4,in.pat); vf::run(c,*o.v,in); }
 					if(vf::want(*o.m)) for(int C=2;C<=4;C++) for(int R=2;R<=4;R++){ InM in{}; in.C=(u8)C; in.R=(u8)R; in.qi=(u8)qi; in.pat=(u8)(k<5? k : c.rng.below(5)); fill_tags(c.rng,in.raw,16,in.pat); vf::run(c,*o.m,in); }
 					if(vf::want(*o.q)){ InQ in{}; in.qi=(u8)qi; in.pat=(u8)(k<5? k : c.rng.below(5)); fill_tags(c.rng,in.raw,4,in.pat); vf::run(c,*o.q,in); }
@@ -532,8 +559,8 @@ static void workload(){
 	});
 	// what this configuration is (evidence)
 	char b[512];
-	snprintf(b,sizeof b,"aligned_types=%d default_qualifier=%s anonymous_struct=%d swizzle=%d xyzw_only=%d simd=%d arch=0x%x length_t=%s quat_order=%s ctor_init=%d lang=0x%x",
-		(int)C16_ALIGNED,QNAMES[DEFAULT_QI],(int)(GLM_CONFIG_ANONYMOUS_STRUCT==GLM_ENABLE),(int)GLM_CONFIG_SWIZZLE,(int)C16_XYZW_ONLY,(int)(GLM_CONFIG_SIMD==GLM_ENABLE),(unsigned)GLM_ARCH,LENGTH_NAME,
+	snprintf(b,sizeof b,"qualifiers=%s aligned_types=%d default_qualifier=%s anonymous_struct=%d swizzle=%d xyzw_only=%d simd=%d arch=0x%x length_t=%s quat_order=%s ctor_init=%d lang=0x%x",
+		C16_LEAN? "highp-only":"highp,mediump,lowp",(int)C16_ALIGNED,QNAMES[DEFAULT_QI],(int)(GLM_CONFIG_ANONYMOUS_STRUCT==GLM_ENABLE),(int)GLM_CONFIG_SWIZZLE,(int)C16_XYZW_ONLY,(int)(GLM_CONFIG_SIMD==GLM_ENABLE),(unsigned)GLM_ARCH,LENGTH_NAME,
 		QW==0? "wxyz":"xyzw",(int)GLM_CONFIG_CTOR_INIT,(unsigned)GLM_LANG);
 	vf::note("configuration",b);
 #if C16_ALIGNED
